@@ -865,6 +865,17 @@ def extra_shards(which, tier):
             fo = ins[lo:lo + 6]
             out.append({"fn": "step2", "consts": {"rel": "ir_mod", "which": which, "third": 0, "shape": [1, 1], "first_ops": fo, "op_lo": 0, "nops1": len(fo), "nops": len(names)},
                         "timeout": 1200, "twin": False, "cover": False})
+        # K = 2 on the set relations: a parent-side insertion (add / |= / update / ^=: the operations that MOVE a child that has a parent), then any operation
+        for rel in RELS:
+            if rel == "ir_mod":
+                continue
+            w = build(rel, (0, 0, 0, 0))
+            names = [n for n, _f, _e in set_ops(w) + ctor_ops(w)]
+            ins = [i for i, n in enumerate(names) if (".add(" in n or "|=" in n or ".update(" in n or "^=" in n)]
+            for lo in range(0, len(ins), 4):
+                fo = ins[lo:lo + 4]
+                out.append({"fn": "step2", "consts": {"rel": rel, "which": which, "third": 0, "first_ops": fo, "op_lo": 0, "nops1": len(fo), "nops": len(names)},
+                            "timeout": 1200, "twin": False, "cover": False})
     if tier != "quick":
         # K = 2: every ordered pair of operations from the pre-states with both candidate parents attached to different IRs
         for rel in RELS:
